@@ -1,5 +1,6 @@
 import NLE.Proofs.VacInv
 import NLE.Model.Cand
+import NLE.Gen.Shape
 /-!
 # C06 — a vacancy is filled within a bounded time while a healthy candidate exists
 
@@ -84,5 +85,9 @@ def lazyFollower : List TEv := [
   ⟨700000000, .extDelete "g" 2⟩ ]
 
 example : (match Cand.run {} lazyFollower with | .ok _ => false | .error _ => true) = true := by decide
+
+/-- AST fact: every run gets its own watch loop — `Start` clears the "watcher running" flag, as the stop calls do (a loop
+    of the previous run may still be inside a slow store call when the next run begins). -/
+theorem watcher_per_run_shape : Gen.startResetsWatcherFlag = true := by decide
 
 end NLE.Theorems.C06
